@@ -38,6 +38,16 @@ CHECKS["C07"] = dict(level="fault_enumeration", ref="DESIGN.md §4 C07",
     note="Trusted: reference execution is the same library on a fresh instance; ids in default names masked; names given by -file in input count as user-set names (allowed to survive). Fault positions are sampled (log-uniform fraction of the call), not enumerated exhaustively in the quick tier.",
     technique="deterministic simulation: seeded histories with injected crash points (abort at k-th message, k-th allocation NULL, read EIO, failed load) vs fresh-instance reference execution")
 
+CHECKS["C08"] = dict(level="fault_enumeration", ref="DESIGN.md §4 C08",
+    text="Seeded search over fault sequences on a freshly loaded instance: one bad call per case from five families — stored-byte faults on corpus inputs "
+         "(flipped bytes, deleted/duplicated/swapped lines, edge numbers, deleted tokens, truncation, inserted garbage at fractional positions), the same on "
+         "database texts, file faults (missing database/input/include, EIO/EOF/short reads/EINTR at byte N, open failure/ENOSPC/short write/failing close on each "
+         "output sink and the dump file), the k-th C allocation returning NULL in a run or a load, and degenerate arguments — followed by a reload and a probe. "
+         "Oracle: the call returns (exit trapped, no signal, no escaping exception, ASan/UBSan silent), return != 0 <=> error text recorded, the strings hold "
+         "nothing of an earlier successful run, and the reloaded instance equals a fresh one given the same setter calls.",
+    note="Trusted: clang 14 ASan/UBSan as the memory/UB oracle; message budget (400000) and a 120 s watchdog bound runaway inputs (counted inconclusive, never a violation). Known findings KF14-KF16 (UBSan reports in readers for damaged input) are listed by call site; any other site fails the check.",
+    technique="deterministic simulation: seeded fault sequences (stored-byte, file, allocation and argument faults) under ASan/UBSan with exit trap, followed by reload and fresh-instance reference execution")
+
 NA = {
     "C01": "pure function of (input, database): deciding it needs an independent thermodynamic evaluator, no schedule, clock, fault or call history takes part",
     "C03": "pure function of the input assemblage; the only fault-like path (solver retry ladder) is exercised under C02",
@@ -50,7 +60,7 @@ NA = {
     "C19": "pure function of the gas-phase input",
     "C20": "pure function of the surface input",
 }
-PENDING = {k: "claimed in DESIGN.md; its check is still under construction in this build phase and is not registered yet" for k in ("C02","C04","C05","C08","C10","C14")}
+PENDING = {k: "claimed in DESIGN.md; its check is still under construction in this build phase and is not registered yet" for k in ("C02","C04","C05","C10","C14")}
 
 
 def main():
@@ -91,6 +101,6 @@ def main():
 
 
 HOOK_COMMITS = ["f732ec2d"]
-FIX_COMMITS = ["534640d9", "56cd6cbd", "16e4b988", "75d6d0dd", "8109e7ed", "63c515ea", "d473780a", "357c1413"]
+FIX_COMMITS = ["534640d9", "56cd6cbd", "16e4b988", "75d6d0dd", "8109e7ed", "63c515ea", "d473780a", "357c1413", "db73fc0e", "b50adf6f"]
 if __name__ == "__main__":
     main()
